@@ -654,7 +654,7 @@ void d_string_erase(DString * baseString, size_t pos, size_t len) {
 			return;
 		}
 
-		if ((pos + len) >= baseString->currentStringLength) {
+		if (len >= baseString->currentStringLength - pos) {
 			len = -1;
 		}
 
@@ -776,10 +776,10 @@ long d_string_replace_text_in_range(DString * d, size_t pos, size_t len, const c
 		if (len == -1) {
 			stop = d->currentStringLength;
 		} else {
-			stop = pos + len;
-
-			if (stop > d->currentStringLength) {
+			if (len > d->currentStringLength - pos) {
 				stop = d->currentStringLength;
+			} else {
+				stop = pos + len;
 			}
 		}
 
